@@ -24,6 +24,7 @@ COMPONENTS_STUB = ["channel between encoder and decoder (fault injector)",
                    "oracle: model strict Ecdsa-Sig-Value codec + big-endian "
                    "fixed-length arithmetic"]
 ASSUMPTIONS = ["model DER codec is strict X.690 DER"]
+HISTORY_DIFF = {"quick": 120, "thorough": 1000}
 SHRINK = [["items"]]
 REQUIRED_PROBES = {"quick": ["raw_len_rejected", "der_rejected",
                              "der_accepted_after_fault"],
@@ -110,6 +111,7 @@ def execute(prog):
     n = prog["order"]
     L = (max(n.bit_length(), 1) + 7) // 8
     log = []
+    rlog = []
     # helper functions: mutually inverse and length-exact
     try:
         if lu.orderlen(n) != L:
@@ -233,6 +235,7 @@ def execute(prog):
                 should = False
                 exp = None
                 core.bump(out["probes"], "der_rejected")
+        rlog.append((fmt, accepted, list(got) if accepted else None))
         if accepted != should:
             out["violation"] = core.violation(
                 ID, "strict", "%s-%s" % (fmt, "accepts" if accepted
@@ -280,6 +283,7 @@ def execute(prog):
                     "canonical %r" % (got, _show(data), _show(re)))
                 return out
     out["digest"] = core.digest_of(log)
+    out["rdigest"] = core.digest_of(rlog)
     out["steps"] = out["ops"]       # deliveries
     return out
 
